@@ -37,7 +37,8 @@ RULE = (
     "tensors; mtl_backward: m tasks, m<=6). The real call runs with chunk size k and retain_graph both ways; "
     "(1) the update equals the NumPy model, and the same world re-run with k=1 and k=None does too; (2) every "
     "probe on a differentiable path from the differentiated tensors to a requested parameter logs exactly "
-    "ceil(m/k) sweeps of sizes [k,..,k,remainder] (head probes of mtl_backward: one sequential event); (3) with "
+    "ceil(m/k) sweeps of sizes [k,..,k,remainder] (head probes of mtl_backward: never a batched event -- how "
+    "often a head is traversed is not part of C07); (3) with "
     "k=1 or m=1 no probe sees a batched cotangent and hostile probes do not break the call. Non-trivial: >=1 "
     "probe on a differentiated path; distinct = digest of (m, k, api, ops, probe positions, retain)."
 )
@@ -84,7 +85,7 @@ def expected_probe_events(spec, model, call, m):
         for tag, pin, pout in probes:
             on_root = any(pout in anc[r] for r in call["tensors"])
             reaches = any(t in anc[pin] for t in inputs)
-            exp[tag] = list(jac_events) if (on_root and reaches) else []
+            exp[tag] = (0, list(jac_events) if (on_root and reaches) else [])
     else:
         from ..world import default_params_mtl
 
@@ -93,15 +94,14 @@ def expected_probe_events(spec, model, call, m):
         shared = call["shared"] if call.get("shared") is not None else dshared
         tasks = call["tasks"] if call.get("tasks") is not None else dtasks
         for tag, pin, pout in probes:
-            ev = []
+            head = 0
             for i, loss in enumerate(call["losses"]):
                 targets = list(tasks[i]) + list(call["features"])
                 if pout in anc[loss] and any(t in anc[pin] for t in targets):
-                    ev.append(("seq", None))
+                    head += 1
             on_root = any(pout in anc[f] for f in call["features"])
-            if on_root and any(t in anc[pin] for t in shared) and len(shared) > 0:
-                ev += jac_events
-            exp[tag] = ev
+            jac = list(jac_events) if (on_root and any(t in anc[pin] for t in shared) and len(shared) > 0) else []
+            exp[tag] = (head, jac)
     return exp, sizes
 
 
@@ -159,6 +159,9 @@ def generate(rng, tier, index):
         rg = [leaf["name"] for leaf in spec["leaves"] if leaf["rg"]]
         inputs = rng.sample(rg, rng.randint(1, len(rg))) if rng.random() < 0.6 else None
         call = {"api": "backward", "tensors": outs, "inputs": inputs, "agg": gen_det_agg(rng, m, dtype, families=["Constant", "Sum", "Mean", "UPGrad"]), "chunk": k, "retain": retain}
+        from ..world import gen_forms
+
+        call["forms"] = gen_forms(rng)
         roles = None
     return {"spec": spec, "roles": roles, "call": call, "m": m, "sched": gen_sched(rng, spec), "pre_grads": gen_pre_grads(rng, spec, p=0.2)}
 
@@ -202,7 +205,7 @@ def execute(scn):
     k = call.get("chunk")
     hostile_tags = [n["p"]["tag"] for n in spec["nodes"] if n["op"] == "probe" and n["p"].get("hostile")]
     exp_events, sizes = expected_probe_events(spec, model, call, m)
-    hostile_batched = any(t in hostile_tags and any(ev[0] == "vmap" for ev in evs) for t, evs in exp_events.items())
+    hostile_batched = any(t in hostile_tags and any(ev[0] == "vmap" for ev in evs[1]) for t, evs in exp_events.items())
     sequential = (k == 1) or (m == 1)
 
     out, log, bad = _run(spec, scn["sched"], call, scn.get("pre_grads", {}), model, updates, eps, stats, "main")
@@ -221,25 +224,31 @@ def execute(scn):
         got = {}
         for e in log:
             got.setdefault(e[1], []).append((e[2], e[3]))
-        for tag, evs in exp_events.items():
+        for tag, (head, jac) in exp_events.items():
             g = got.get(tag, [])
-            if g != evs:
+            # C07 fixes the number and sizes of the sweeps between the differentiated tensors and the
+            # parameters (the Jac part: the LAST len(jac) events of a probe); how often a head of
+            # mtl_backward is traversed is not stated, only that single rows are never batched
+            jpart = g[len(g) - len(jac):] if jac else []
+            hpart = g[: len(g) - len(jac)] if jac else g
+            bad_jac = len(g) < len(jac) or jpart != jac
+            bad_head = any(x[0] == "vmap" for x in hpart)
+            if call["api"] == "backward" and hpart:
+                bad_jac = True  # no other differentiation exists in backward(): extra sweeps are extra sweeps
+            if bad_jac or bad_head:
                 clause = "sweep_schedule"
-                if sequential and any(x[0] == "vmap" for x in g):
+                if (sequential and any(x[0] == "vmap" for x in g)) or bad_head:
                     clause = "batched_differentiation_when_sequential_promised"
-                viols.append({"clause": clause, "step": "main", "details": {"probe": tag, "m": m, "k": k, "expected": evs, "got": g}, "key": {}})
-            if evs:
+                viols.append({"clause": clause, "step": "main", "details": {"probe": tag, "m": m, "k": k, "expected_jac_sweeps": jac, "expected_single_row_head_sweeps": head, "got": g}, "key": {}})
+            if jac or head:
                 stats["reach.probe_on_differentiated_path"] = stats.get("reach.probe_on_differentiated_path", 0) + 1
-        for tag, g in got.items():
-            if tag not in exp_events:
-                viols.append({"clause": "sweep_schedule", "step": "main", "details": {"probe": tag, "problem": "unexpected probe fired", "got": g}, "key": {}})
         if any(x[0] == "vmap" for g in got.values() for x in g):
             stats["reach.vmap_sweep_seen"] = 1
         if len(sizes) > 1 and sizes[-1] != sizes[0]:
             stats["reach.remainder_chunk"] = 1
         if len(sizes) > 1 and not call["retain"]:
             stats["reach.multi_sweep_with_retain_false"] = 1
-        if sequential and hostile_tags and any(exp_events.get(t) for t in hostile_tags):
+        if sequential and hostile_tags and any(exp_events.get(t, (0, []))[0] or exp_events.get(t, (0, []))[1] for t in hostile_tags):
             stats["reach.hostile_probe_survived_sequential"] = 1
     # (1) across chunk sizes: k=1 and k=None on fresh instantiations
     if not viols:
@@ -249,7 +258,7 @@ def execute(scn):
             call2 = copy.deepcopy(call)
             call2["chunk"] = k2
             ev2, _ = expected_probe_events(spec, model, call2, m)
-            hb2 = any(t in hostile_tags and any(e[0] == "vmap" for e in evs) for t, evs in ev2.items())
+            hb2 = any(t in hostile_tags and any(e[0] == "vmap" for e in evs[1]) for t, evs in ev2.items())
             out2, log2, bad2 = _run(spec, scn["sched"], call2, scn.get("pre_grads", {}), model, updates, eps, stats, f"k={k2}")
             events.append([f"k={k2}", out2["ok"], out2["exc"]])
             if not out2["ok"]:
@@ -268,7 +277,7 @@ def execute(scn):
         uniq.setdefault(v["clause"], v)
     return {
         "violations": list(uniq.values()), "events": events, "stats": stats, "sets": sets, "sig": sig,
-        "nontrivial": any(len(v) > 0 for v in exp_events.values()),
+        "nontrivial": any(v[0] > 0 or len(v[1]) > 0 for v in exp_events.values()),
     }
 
 
